@@ -7,6 +7,8 @@ semi-definite and carries rho*V per direction, constraint forces are self-equili
 """
 import warnings
 
+import copy
+
 import numpy as np
 
 from .. import attach, gen
@@ -235,7 +237,11 @@ def attach_hooks(run):
         f = self.field
         density = kwargs.get("density", args[0] if args else None)
         if density is None:
-            density = self.density
+            # the density given at construction (recorded by the constructor hook), not the attribute of the object
+            a = BODY_GIVEN.get(id(self))
+            density = a[1].get("density") if a is not None and a[0] is self else self.density
+            if a is not None and a[0] is self:
+                run.units["mass:construction-density"] += 1
         if density is None:
             return
         Mx = result.toarray()
@@ -256,8 +262,15 @@ def attach_hooks(run):
                         "e_i^T M e_i differs from density * volume", unit="mass:total", config=(lab, "total"),
                         sample={"item": lab, "direction": i, "e^T M e": tot, "rho*V": density * V})
 
+    def body_init(obj, arguments):
+        BODY_GIVEN[id(obj)] = (obj, {"density": arguments.get("density")})
+
     for cls in (M.SolidBody, M.SolidBodyNearlyIncompressible):
         attach.wrap_method(cls, "_mass", post=mass_post)
+        attach.wrap_init(cls, body_init)
+
+
+BODY_GIVEN = {}
 
 
 def case_solid(kind, fam, geometry, mat, rep):
@@ -279,6 +292,19 @@ def case_solid(kind, fam, geometry, mat, rep):
                 body = fem.SolidBody(C01.materials(rng, mat), field, density=float(rng.uniform(0.5, 3)))
             body.assemble.vector(field)
             body.assemble.vector(field)  # reused buffers
+            # other states through the same object (buffers refilled), threaded assembly, the cached state without a field,
+            # and a container that is not the body's own (what Newton hands over: x + dx is a new object)
+            for it in range(2):
+                C01.random_state(rng, field, grad=float(rng.uniform(0.1, 0.3)))
+                body.assemble.vector(field, parallel=bool(it))
+                if mat == "SolidBodyNearlyIncompressible":
+                    body.assemble.vector(field, parallel=bool(it))
+            body.assemble.vector()
+            f2 = copy.deepcopy(field)
+            C01.random_state(rng, f2, grad=float(rng.uniform(0.1, 0.3)))
+            body.assemble.vector(f2)
+            body.assemble.vector(f2)
+            run.units["solid:other-states+parallel+foreign-container"] += 1
             if kind not in ("axisymmetric", "mixed-axisymmetric"):
                 body.assemble.mass()
                 body.assemble.mass(density=float(rng.uniform(0.5, 3)))
@@ -339,6 +365,27 @@ def case_loads(rep):
                         field[0].values[:] = gen.random_displacement(rng, mesh, grad=float(rng.uniform(0.1, 0.3)))
                         p.assemble.vector(field)
                         run.units["pressure:volume-field-handed-over"] += 1
+            # follower pressure on quadratic boundary regions, other faces, faces of interior cells included
+            for fam, R in (("hexahedron20", "RegionQuadraticHexahedronBoundary"), ("hexahedron27", "RegionTriQuadraticHexahedronBoundary"),
+                           ("quad8", "RegionQuadraticQuadBoundary"), ("quad9", "RegionBiQuadraticQuadBoundary")):
+                mq, _ = gen.build_mesh(fam, "distorted", rng)
+                dq = mq.dim
+                ax = int(rng.integers(0, dq))
+                side = mq.points[:, ax].min() if rng.integers(0, 2) else mq.points[:, ax].max()
+                for mask, only_surface in ((np.isclose(mq.points[:, ax], side), True), (None, True)):
+                    kwq = {} if dq == 3 else {"ensure_3d": True}
+                    rbq = getattr(fem, R)(mq, mask=mask, only_surface=only_surface, **kwq)
+                    Fld = fem.Field if dq == 3 else fem.FieldPlaneStrain
+                    fbq = fem.FieldContainer([Fld(rbq, dim=dq)])
+                    fq = fem.FieldContainer([Fld(gen.make_region(fam, mq), dim=dq)])
+                    fq[0].values[:] = gen.random_displacement(rng, mq, grad=0.2)
+                    pq = fem.SolidBodyPressure(fbq, pressure=float(rng.uniform(-2, 2)))
+                    pq.assemble.vector(fq)
+                    run.units["pressure:quadratic-boundary:" + fam] += 1
+            # small-strain law in a solid body: forces still sum to zero (no moment balance is claimed for it)
+            fl, ml, _ = C01.make_field("3d", "hexahedron", "distorted", rng)
+            C01.random_state(rng, fl, grad=0.05)
+            fem.SolidBody(fem.LinearElastic(E=2.0, nu=0.3), fl).assemble.vector(fl)
             # constraints
             mesh = fem.Cube(n=(3, 3, 2))
             mesh.update(points=np.vstack([mesh.points, [0.5, 0.5, 1.4]]))
@@ -385,7 +432,7 @@ SPEC = {
         "balance:moment:SolidBody[FieldPlaneStrain]", "balance:force:SolidBody[FieldAxisymmetric]",
         "balance:force:SolidBody[Field,mixed]", "balance:moment:SolidBody[Field,mixed]",
         "balance:force:SolidBodyNearlyIncompressible[Field]", "balance:moment:SolidBodyNearlyIncompressible[Field]",
-        "balance:force:SolidBodyNearlyIncompressible[FieldAxisymmetric]", "resultant:SolidBodyForce", "resultant:SolidBodyGravity", "requested:SolidBodyForce", "requested:SolidBodyGravity", "requested:PointLoad", "requested:SolidBodyPressure", "pressure:volume-field-handed-over",
+        "balance:force:SolidBodyNearlyIncompressible[FieldAxisymmetric]", "resultant:SolidBodyForce", "resultant:SolidBodyGravity", "requested:SolidBodyForce", "requested:SolidBodyGravity", "requested:PointLoad", "requested:SolidBodyPressure", "pressure:volume-field-handed-over", "mass:construction-density", "solid:other-states+parallel+foreign-container",
         "resultant:PointLoad", "resultant:SolidBodyPressure[Field]:open", "resultant:SolidBodyPressure[Field]:closed",
         "resultant:SolidBodyPressure[Field]:closed-zero", "resultant:SolidBodyPressure[FieldPlaneStrain]:open",
         "resultant:SolidBodyPressure[FieldAxisymmetric]:open", "mass:symmetric", "mass:psd", "mass:total",
